@@ -60,6 +60,10 @@ CONSTANTS Peers,         \* peer ids
           FollowAppend,  \* TRUE = as coded since fix F4 (FALSE: the follow stack had no appendStore)
           PinsOperatorHash, \* TRUE = as coded: StartFollowChain recomputes the hash of the chain info it fetched and
                          \* compares it with the operator's; FALSE: it trusts the hash FIELD of a peer's packet
+          ResyncDeletesFirst, \* FALSE = as coded: a corrected round is ONE overwriting store transaction;
+                         \* TRUE: insecureStore.Del(round) and then insecureStore.Put(beacon), two transactions
+          Aborts,        \* TRUE: the environment may cancel the repair's context between any two store
+                         \* operations and make one store write fail (repair mode)
           ResyncChecksRound, \* TRUE = as coded since fix F32 (FALSE: resync wrote any verified round)
           MaxAgg,        \* aggregator puts (run mode)
           QCap,          \* modelled capacity of s.newReq (3 in the code)
@@ -234,7 +238,7 @@ Init ==
                              ELSE IF m = "repair" THEN "check" ELSE "run",
                  pin |-> IF m = "follow" /\ PinOf([p \in 1..Cardinality(Peers) |-> PT[pt[p]][1]], PinsOperatorHash) = "liar"
                            THEN "liar" ELSE "genuine",
-                 reported |-> {}, todo |-> <<>>, retried |-> FALSE, failed |-> {}]
+                 reported |-> {}, todo |-> <<>>, retried |-> FALSE, failed |-> {}, faults |-> 1]
   /\ called = [p \in Peers |-> FALSE]
   /\ tasks = [i \in 1..NT |-> FreeTask]
   /\ queue = <<>> /\ age = 3 /\ cur = 0 /\ ctxDone = FALSE /\ notif = 0 /\ agg = 0
@@ -307,11 +311,22 @@ TaskItem(i) ==
                   /\ obs' = H([kind |-> "rejected", t |-> "unrequested"])
            ELSE IF t.rfrom > 0
              THEN \* resync: insecureStore.Put of a requested (or, before F32, any) verified round
-                  /\ store' = [store EXCEPT ![it.round] = IF Verified(it.t) THEN "ok" ELSE "bad"]
-                  /\ UNCHANGED <<alast, slast>>
-                  /\ tasks' = [tasks EXCEPT ![i] = stored(t2(t1))]
-                  /\ notif' = 1
-                  /\ obs' = H([PutObs(t1, it.round, hb, "ok") EXCEPT !.verifies = Verified(it.t)])
+                  IF ResyncDeletesFirst
+                    THEN \* first transaction: the stored entry is removed; the write follows in TaskWrite
+                         /\ store' = [store EXCEPT ![it.round] = "none"]
+                         /\ UNCHANGED <<alast, slast, notif>>
+                         /\ tasks' = [tasks EXCEPT ![i] = [t2(t1) EXCEPT !.st = "write"]]
+                         /\ obs' = H([kind |-> "del", round |-> it.round])
+                    ELSE \/ /\ store' = [store EXCEPT ![it.round] = IF Verified(it.t) THEN "ok" ELSE "bad"]
+                            /\ UNCHANGED <<alast, slast>>
+                            /\ tasks' = [tasks EXCEPT ![i] = stored(t2(t1))]
+                            /\ notif' = 1
+                            /\ obs' = H([PutObs(t1, it.round, hb, "ok") EXCEPT !.verifies = Verified(it.t)])
+                         \/ \* the (single) write fails: nothing changes, the peer is abandoned
+                            /\ Aborts /\ drv.faults > 0
+                            /\ UNCHANGED <<store, alast, slast, notif>>
+                            /\ tasks' = [tasks EXCEPT ![i] = [t1 EXCEPT !.st = "next"]]
+                            /\ obs' = H([kind |-> "puterr", round |-> it.round])
              ELSE LET res == SecurePut(StackOf(cfg.mode), cfg.chained, alast, slast, it.round) IN
                   CASE res = "ok" ->
                          /\ store' = [store EXCEPT ![it.round] = IF Verified(it.t) THEN "ok" ELSE "bad"]
@@ -329,6 +344,21 @@ TaskItem(i) ==
                          /\ UNCHANGED <<store, alast, slast, notif>>
                          /\ tasks' = [tasks EXCEPT ![i] = [t1 EXCEPT !.st = "next"]]
                          /\ obs' = H([kind |-> "puterr", round |-> it.round])
+
+\* tryNode (ResyncDeletesFirst only): the second store transaction of a corrected round
+TaskWrite(i) ==
+  LET t == tasks[i] IN
+  /\ t.st = "write"
+  /\ UNCHANGED <<cfg, alast, slast, called, queue, age, cur, ctxDone, drv, agg>>
+  /\ \/ /\ ~t.canc                                  \* insecureStore.Put succeeds
+        /\ store' = [store EXCEPT ![t.lput] = "ok"]
+        /\ tasks' = [tasks EXCEPT ![i] = IF notif = 0 THEN Continue(t) ELSE [t EXCEPT !.st = "notify"]]
+        /\ notif' = 1
+        /\ obs' = H([kind |-> "put2", round |-> t.lput])
+     \/ /\ t.canc \/ (Aborts /\ drv.faults > 0)      \* Put returns ctx.Err() / the write fails
+        /\ UNCHANGED <<store, notif>>
+        /\ tasks' = [tasks EXCEPT ![i] = [t EXCEPT !.st = "next"]]
+        /\ obs' = H([kind |-> "puterr", round |-> t.lput])
 
 \* tryNode: `s.newSyncedBeacon <- beacon` was blocked on the full 1-slot channel; then the target test
 TaskNotify(i) ==
@@ -356,7 +386,10 @@ TaskReap(i) ==
             /\ UNCHANGED <<cur, ctxDone>>
        [] OTHER ->                                 \* ReSync / CorrectPastBeacons
             /\ UNCHANGED <<cur, ctxDone>>
-            /\ IF ~t.ok /\ t.res = "failedall" /\ ~drv.retried
+            /\ IF t.canc                                  \* CorrectPastBeacons: `case <-ctx.Done(): return ctx.Err()`
+                 THEN /\ tasks' = [tasks EXCEPT ![i] = FreeTask]
+                      /\ drv' = [drv EXCEPT !.todo = <<>>, !.phase = "aborted"]
+               ELSE IF ~t.ok /\ t.res = "failedall" /\ ~drv.retried
                  THEN /\ \E pm \in AllPerms : tasks' = [tasks EXCEPT ![i] = NewTask("repair", pm, t.rfrom, t.upTo)]
                       /\ drv' = [drv EXCEPT !.retried = TRUE]
                  ELSE /\ tasks' = [tasks EXCEPT ![i] = FreeTask]
@@ -402,7 +435,7 @@ RunNotif ==
 
 TaskEnabled(i) ==
   LET t == tasks[i] IN
-  \/ t.st \in {"next", "ret"}
+  \/ t.st \in {"next", "ret", "write"}
   \/ t.st = "notify" /\ notif = 0
   \/ t.st = "stream" /\ (t.canc \/ ItemOf(t.kind, t.k, t.from, t.pos, t.hd).t # "block")
 Busy == notif = 1 \/ queue # <<>> \/ \E i \in 1..NT : TaskEnabled(i)
@@ -459,13 +492,22 @@ RepairStartWith(pm) ==
   /\ UNCHANGED <<cfg, store, alast, slast, called, queue, age, cur, ctxDone, notif, agg>>
 RepairStart == \E pm \in AllPerms : RepairStartWith(pm)
 
+\* the operator hangs up / the daemon stops: the context of the running correction is cancelled
+RepairCancel ==
+  /\ cfg.mode = "repair" /\ Aborts /\ drv.phase = "resync"
+  /\ \E i \in 1..NT : tasks[i].owner = "repair" /\ ~tasks[i].canc
+  /\ tasks' = [i \in 1..NT |-> IF tasks[i].owner = "repair" THEN [tasks[i] EXCEPT !.canc = TRUE] ELSE tasks[i]]
+  /\ obs' = H([kind |-> "repaircancel"])
+  /\ UNCHANGED <<cfg, store, alast, slast, called, queue, age, cur, ctxDone, notif, drv, agg>>
+
 \* In follow and repair mode SyncManager.Run is running as well; it only drains the notification slot.
 Next ==
-  \/ \E i \in 1..NT : TaskNext(i) \/ TaskItem(i) \/ TaskNotify(i) \/ TaskReap(i)
+  \/ \E i \in 1..NT : TaskNext(i) \/ TaskItem(i) \/ TaskWrite(i) \/ TaskNotify(i) \/ TaskReap(i)
+  \/ RepairCancel
   \/ RunReq \/ RunNotif \/ Tick \/ Request \/ AggPut
   \/ FollowStart \/ RepairCheck \/ RepairStart
 
-TaskStep(i) == TaskNext(i) \/ TaskItem(i) \/ TaskNotify(i) \/ TaskReap(i)
+TaskStep(i) == TaskNext(i) \/ TaskItem(i) \/ TaskWrite(i) \/ TaskNotify(i) \/ TaskReap(i)
 
 Spec == Init /\ [][Next]_vars
 
@@ -487,7 +529,7 @@ TypeOK ==
   /\ store \in [Rounds -> {"none", "ok", "bad"}]
   /\ alast \in Rounds /\ slast \in Rounds
   /\ Len(queue) <= QCap /\ age \in 0..3 /\ notif \in 0..1 /\ cur \in 0..NT
-  /\ \A i \in 1..NT : tasks[i].st \in {"free", "next", "stream", "notify", "ret"}
+  /\ \A i \in 1..NT : tasks[i].st \in {"free", "next", "stream", "write", "notify", "ret"}
 
 Inv_OnlyVerifiedInOrder ==
   obs.kind = "put" => OnlyVerifiedInOrder(obs.resync, obs.verifies, obs.round, obs.hb, obs.req)
@@ -499,6 +541,12 @@ Inv_Chain == cfg.mode # "repair" => \A r \in Rounds : r <= StoreHead(store) => s
 \* repair never touches a round that the check did not report
 Inv_RepairUntouched ==
   (cfg.mode = "repair" /\ drv.phase # "check") => RepairUntouched(cfg.store0, store, drv.reported)
+
+\* a repair that ended - done, cancelled or after a failed write - has lost no round that was stored before it
+\* (C02 and C10: RepairLosesRound)
+RepairLosesRound(pre, post) == \E r \in DOMAIN pre : pre[r] # "none" /\ post[r] = "none"
+Inv_RepairKeepsRounds ==
+  (cfg.mode = "repair" /\ drv.phase \in {"done", "aborted"}) => ~RepairLosesRound(cfg.store0, store)
 
 \* the check always produces a report
 Inv_CheckNeverAborts == drv.phase # "aborted"
